@@ -125,7 +125,34 @@ def run_jobs(jobs, timeout=600, progress=None):
     return out
 
 
-def run_check(prop, level, plan, judge, rule, min_nontrivial, deciding_counters=(), timeout=600, describe=None, assumptions=(), finalize=None, module=None, required=None):
+def changed_original_lines(before: str, after: str):
+    import difflib
+    A = before.splitlines(); B = after.splitlines(); out = []
+    for tag, i1, i2, j1, j2 in difflib.SequenceMatcher(None, A, B, autojunk=False).get_opcodes():
+        if tag in ("replace", "delete"): out += list(range(i1 + 1, i2 + 1))
+    return out
+
+def line_filter_followups(job, r, rnd, per_job=2):
+    """second-wave jobs: the same single-file project with ONE of the lines the first run rewrote excluded (`--path-exclude code.py:N`).
+    A partially applied rewrite (one site skipped, its siblings done) must still satisfy the property."""
+    import base64
+    if list(job.get("files") or {}) != ["code.py"] or r.get("status") != "ok": return []
+    run = r["runs"][0]
+    if run["rc"] != 0 or run["exc"] or not run["tree"].get("code.py", "").startswith("F:"): return []
+    try:
+        before = base64.b64decode(job["files"]["code.py"]).decode("utf-8"); after = base64.b64decode(run["tree"]["code.py"][2:]).decode("utf-8")
+    except UnicodeDecodeError: return []
+    lines = changed_original_lines(before, after)
+    if len(lines) < 2: return []          # a single rewritten line: excluding it just disables the codemod
+    out = []
+    for n in rnd.sample(lines, min(per_job, len(lines))):
+        j = {k: v for k, v in job.items() if not k.startswith("_")}
+        j["id"] = f"{job['id']}|exclude-line-{n}"; j["argv"] = list(job["argv"]) + ["--path-exclude", f"code.py:{n}"]; j["repeat"] = 1; j["excluded_line"] = n
+        j["labels"] = {k: tuple(v) + ("line-excluded",) for k, v in (job.get("labels") or {}).items()}
+        out.append(j)
+    return out
+
+def run_check(prop, level, plan, judge, rule, min_nontrivial, deciding_counters=(), timeout=600, describe=None, assumptions=(), finalize=None, module=None, required=None, followup=None, followup_cap=300):
     tier, seed = tier_seed()
     t0 = time.time()
     jobs = plan(tier, seed)
@@ -152,6 +179,33 @@ def run_check(prop, level, plan, judge, rule, min_nontrivial, deciding_counters=
         for x in nt: nontrivial.add(x if isinstance(x, (str, int)) else tuple(x))
         if len(samples) < 4 and nt:
             samples.append(describe(job, r) if describe else default_describe(job, r))
+    if followup:
+        import random as _random
+        rnd = _random.Random(f"{prop}:followup:{seed}")
+        more = [j2 for job, r in zip(jobs, res) if r is not None for j2 in followup(job, r, rnd)]
+        if len(more) > followup_cap:
+            # stratified: round-robin over codemods, several-site files ("twice" context) first, so every codemod gets partially-applied runs
+            by_c = {}
+            rnd.shuffle(more)
+            for j2 in more: by_c.setdefault(j2.get("cid") or "?", []).append(j2)
+            for q in by_c.values(): q.sort(key=lambda j2: min([{"twice-defs": 0, "twice": 1}.get(str(l[0]), 2) for l in (j2.get("labels") or {}).values() if l] or [2]))
+            picked = []
+            while len(picked) < followup_cap and any(by_c.values()):
+                for c in sorted(by_c):
+                    if by_c[c] and len(picked) < followup_cap: picked.append(by_c[c].pop(0))
+            more = picked
+        res2 = run_jobs(more, timeout=timeout) if more else []
+        stats["followup_jobs"] = len(more)
+        for job, r in zip(more, res2):
+            if r is None or r.get("status") != "ok": inconcl += 1; continue
+            for run in r["runs"]:
+                evals += 1
+                for k, v_ in (run.get("counters") or {}).items(): counters[k] += v_
+            v, s_, nt = judge(job, r)
+            for x in v:
+                if x.jobs is None: x.jobs = [strip_job(job)]
+            viols += v; stats.update(s_)
+            for x in nt: nontrivial.add(x if isinstance(x, (str, int)) else tuple(x))
     extra = None; req = None
     if finalize:
         fin = finalize(stats, counters)
